@@ -5,7 +5,11 @@ use core::ptr::null_mut;
 use core::sync::atomic::AtomicUsize;
 use std::fmt::{Debug, Formatter, Pointer};
 
-use atomic::{Atomic, Ordering};
+#[cfg(not(feature = "circ_verif"))]
+use atomic::Atomic;
+use atomic::Ordering;
+#[cfg(feature = "circ_verif")]
+use crate::verif::HookedAtomic as Atomic;
 
 use super::Guard;
 
